@@ -3,7 +3,7 @@
    spec side, evaluated on the implementation's observation only (the stated deviations):
    - skipkeys anywhere in the stack: no live Get/Has/iteration ever shows a key with the hidden prefix;
    - readonlystore anywhere in the stack: no Put/Delete/batch Put/batch Delete succeeds (unless a
-     skiperrors layer ABOVE it lists ErrUnsupportedOp, for Put/Delete), and the base ends empty;
+     skiperrors layer lies ABOVE it, which may swallow the refusal, for Put/Delete), and the base ends empty;
    - batched layers over memorydb with nothing else that rejects, fails or bypasses: after a successful
      Close the base holds exactly the ordered map of all Puts/Deletes in order (KvSpec.kv_write);
    - nokeyiserr on top: Get never answers (nil,nil). *)
@@ -67,7 +67,7 @@ let eval inp obs =
   let rec ro_swallowed above = function
     | [] -> None
     | ["R"] :: _ -> Some above
-    | ["E"; cs] :: t -> ro_swallowed (above || List.mem "1" (String.split_on_char '.' cs)) t
+    | ["E"; _] :: t -> ro_swallowed true t   (* any skiperrors above: some refusal may be swallowed *)
     | _ :: t -> ro_swallowed above t in
   let ro = ro_swallowed false lay in
   let plain_batched =
